@@ -1129,6 +1129,24 @@ func pathToCoqPath(p string) string {
 	return p
 }
 
+// ValidImportPath reports whether every component of the Coq path of a Go
+// import path is a Coq identifier, so that it can be written in a Require.
+func ValidImportPath(p string) bool {
+	for _, comp := range strings.Split(pathToCoqPath(p), "/") {
+		if comp == "" {
+			return false
+		}
+		for i, r := range comp {
+			letter := r == '_' || ('a' <= r && r <= 'z') || ('A' <= r && r <= 'Z')
+			digit := '0' <= r && r <= '9'
+			if !(letter || (i > 0 && (digit || r == '\''))) {
+				return false
+			}
+		}
+	}
+	return true
+}
+
 // ImportToPath converts a Go import path to a Coq path
 //
 // TODO: we basically don't handle the package name (determined by the package
